@@ -154,6 +154,19 @@ fn deep_module(kind: &str) -> Vec<u8> {
     f.function(0);
     m.section(&f);
     let mut code = we::CodeSection::new();
+    if kind == "huge-locals" {
+        // invalid: one local group declaring u32::MAX locals; must be rejected
+        // quickly, not allocated
+        let mut body = Vec::new();
+        body.push(1u8); // one group
+        body.extend_from_slice(&[0xff, 0xff, 0xff, 0xff, 0x0f]); // count = u32::MAX
+        body.push(0x7f); // i32
+        body.push(0x0b); // end
+        let mut c = we::CodeSection::new();
+        c.raw(&body);
+        m.section(&c);
+        return m.finish();
+    }
     let mut func = match kind {
         "locals" => we::Function::new((0..50_000).map(|i| (1u32, if i % 2 == 0 { we::ValType::I32 } else { we::ValType::I64 }))),
         _ => we::Function::new(vec![]),
@@ -208,6 +221,7 @@ fn deep_module(kind: &str) -> Vec<u8> {
             func.instruction(&we::Instruction::BrTable(vec![0u32; n].into(), 0));
         }
         "locals" => {}
+        "huge-locals" => {}
         "wide" => {
             // one sequence of 70 000 instructions with a block near its end
             for _ in 0..35_000 {
@@ -247,6 +261,7 @@ pub const DEEP_KINDS: &[&str] = &[
     "dead-blocks",
     "br_table",
     "locals",
+    "huge-locals",
     "wide",
     "unclosed-blocks",
 ];
@@ -287,8 +302,12 @@ fn deep_case(kind: &str) -> CaseResult {
     if std::fs::write(&tmp, &bytes).is_err() {
         return Ok(out);
     }
-    let mut child = match std::process::Command::new(exe)
-        .arg("parse-child")
+    // the child runs under a 6 GiB address-space limit: unbounded allocation
+    // ends in an abort (signal) instead of taking the machine down
+    let mut child = match std::process::Command::new("sh")
+        .arg("-c")
+        .arg("ulimit -v 6000000; exec \"$0\" parse-child \"$1\"")
+        .arg(exe)
         .arg(&tmp)
         .stdout(std::process::Stdio::piped())
         .stderr(std::process::Stdio::null())
@@ -331,7 +350,7 @@ fn deep_case(kind: &str) -> CaseResult {
                 return Err(Failure::new(
                     format!("deep:{}:killed-by-signal", kind),
                     format!(
-                        "parsing/emitting the deep '{}' module ({} bytes) on an 8 MiB main-thread stack died with signal {} (stack overflow); stdout so far: {:?}",
+                        "parsing/emitting the deep '{}' module ({} bytes) in a child process (8 MiB main-thread stack, 6 GiB address space) died with signal {} (11 = stack overflow, 6 = abort, e.g. allocation failure after unbounded allocation); stdout so far: {:?}",
                         kind,
                         bytes.len(),
                         sig,
@@ -360,7 +379,66 @@ fn deep_case(kind: &str) -> CaseResult {
     }
 }
 
+/// Hand-encoded modules using encodings that only later proposals allow.
+pub fn edge_encodings() -> Vec<(&'static str, Vec<u8>)> {
+    fn module(body: &[u8], with_table: bool) -> Vec<u8> {
+        let mut m = we::Module::new();
+        let mut t = we::TypeSection::new();
+        t.function(vec![], vec![]);
+        m.section(&t);
+        let mut f = we::FunctionSection::new();
+        f.function(0);
+        m.section(&f);
+        if with_table {
+            let mut tb = we::TableSection::new();
+            tb.table(we::TableType {
+                element_type: we::RefType::FUNCREF,
+                table64: false,
+                minimum: 1,
+                maximum: None,
+                shared: false,
+            });
+            m.section(&tb);
+        }
+        let mut ms = we::MemorySection::new();
+        ms.memory(we::MemoryType {
+            minimum: 1,
+            maximum: None,
+            memory64: false,
+            shared: false,
+            page_size_log2: None,
+        });
+        m.section(&ms);
+        let mut c = we::CodeSection::new();
+        let mut entry = vec![0u8]; // no locals; the size prefix is added by `raw`
+        entry.extend_from_slice(body);
+        c.raw(&entry);
+        m.section(&c);
+        m.finish()
+    }
+    vec![
+        ("memory.size-overlong-index", module(&[0x3f, 0x80, 0x00, 0x1a, 0x0b], false)),
+        ("memory.grow-overlong-index", module(&[0x41, 0x00, 0x40, 0x80, 0x00, 0x1a, 0x0b], false)),
+        ("load-explicit-memory-0", module(&[0x41, 0x00, 0x28, 0x42, 0x00, 0x00, 0x1a, 0x0b], false)),
+        ("store-explicit-memory-0", module(&[0x41, 0x00, 0x41, 0x00, 0x36, 0x42, 0x00, 0x00, 0x0b], false)),
+        ("call_indirect-overlong-table", module(&[0x41, 0x00, 0x11, 0x00, 0x80, 0x00, 0x0b], true)),
+        ("memory.size-plain", module(&[0x3f, 0x00, 0x1a, 0x0b], false)),
+        ("memory.fill-overlong-index", module(&[0x41, 0x00, 0x41, 0x00, 0x41, 0x00, 0xfc, 0x0b, 0x80, 0x00, 0x0b], false)),
+        ("memory.copy-overlong-index", module(&[0x41, 0x00, 0x41, 0x00, 0x41, 0x00, 0xfc, 0x0a, 0x80, 0x00, 0x00, 0x0b], false)),
+    ]
+}
+
 fn run(ctx: &Ctx) {
+    // encodings at the edge of the feature sets
+    let edge: Vec<Input> = edge_encodings()
+        .into_iter()
+        .map(|(n, b)| Input::Wasm {
+            origin: format!("edge-encoding:{}", n),
+            bytes: b,
+        })
+        .collect();
+    run_inputs(ctx, &edge, &check);
+    ctx.add_label("edge-encodings", edge.len() as u64);
     // deep inputs (child processes)
     let deep: Vec<Input> = DEEP_KINDS.iter().map(|k| Input::Json(json!({ "deep": k }))).collect();
     run_inputs(ctx, &deep, &check);
